@@ -292,6 +292,7 @@ static void *lthr_main(void *arg)
 	return NULL;
 }
 
+static int l_final_phase;
 static int long_confirm_stuck(char *buf, size_t len)
 {
 	int in_op = 0, exited = 0;
@@ -301,8 +302,9 @@ static int long_confirm_stuck(char *buf, size_t len)
 			in_op = VP_LOAD(lthr[i].in_op);
 		exited += VP_LOAD(lthr[i].exited);
 	}
-	if (in_op && exited < l_T) {
-		snprintf(buf, len, "hang:lfq:long:%s-never-returns", in_op == 1 ? "enqueue" : "dequeue");
+	if (in_op && (exited < l_T || VP_LOAD(l_final_phase))) {
+		snprintf(buf, len, "hang:lfq:long:%s-never-returns%s", in_op == 1 ? "enqueue" : "dequeue",
+			 VP_LOAD(l_final_phase) ? "-at-quiescence" : "");
 		return 1;
 	}
 	snprintf(buf, len, "hang:lfq-long:unconfirmed");
@@ -347,7 +349,7 @@ static int run_long(void)
 	for (int i = 0; i < l_T; i++)
 		pthread_join(lthr[i].tid, NULL);
 	vp_rcu_online();
-	vp_watchdog_stop();
+	VP_STORE(l_final_phase, 1);	/* the watchdog keeps running: a broken chain may make the final drain spin */
 	vp_points_clear();
 	VP_STORE(mfrz.prob, 0);
 
@@ -377,8 +379,18 @@ static int run_long(void)
 			}
 		}
 		t->batch_mode = 1;
-		while (!l_dequeue(t) && !vp_nviolations())
+		VP_STORE(t->in_op, 2);
+		while (!l_dequeue(t) && !vp_nviolations()) {
 			left++;
+			if ((left & 1023) == 0)
+				VP_STORE(vp_wd_extra_progress, VP_LOAD(vp_wd_extra_progress) + 1);
+			if (left > produced + 16) {
+				vp_violation("lfq:long:conservation", "cfg=%s the final drain returned more nodes (%llu) than were ever enqueued (%llu)",
+					     cfgname, (unsigned long long) left, (unsigned long long) produced);
+				break;
+			}
+		}
+		VP_STORE(t->in_op, 0);
 		l_flush_batch(t);
 		deq += left;
 		if (produced != deq && !vp_nviolations())
